@@ -6,7 +6,10 @@
 #define MAXL 8
 #define BOUND 40      /* step bound of the raw link walks, same as runner/run_dlist.ml */
 
-struct elem { int key; int id; struct cstl_dlist_node dn; };
+/* two node members: header `offs k0 k1 ..` threads list i through member k_i (0 = dn, 1 = dn2), so that
+ * lists with DIFFERENT node offsets exist (cstl_dlist_swap must exchange the offsets as well) */
+struct elem { int key; int id; struct cstl_dlist_node dn; long pad[3]; struct cstl_dlist_node dn2; };
+static int offs[8];
 
 static struct elem * pool[MAXE];
 static int keys[MAXE], nkeys;
@@ -23,6 +26,7 @@ static struct elem * get(int id)
         pool[id]->key = id < nkeys ? keys[id] : 0;
         pool[id]->id = id;
         pool[id]->dn.n = pool[id]->dn.p = JUNK;
+        pool[id]->dn2.n = pool[id]->dn2.p = JUNK;
     }
     return pool[id];
 }
@@ -34,7 +38,7 @@ static int idofnode(const struct cstl_dlist_node * n)
 {
     int i;
     for (i = 0; i < MAXL; i++) if (n == &lists[i].h) return -(100 + i);
-    for (i = 0; i < MAXE; i++) if (pool[i] && n == &pool[i]->dn) return i;
+    for (i = 0; i < MAXE; i++) if (pool[i] && (n == &pool[i]->dn || n == &pool[i]->dn2)) return i;
     return -99;
 }
 
@@ -123,7 +127,7 @@ static void run_case(const struct h_case * c)
     /* cases are tiny; a broken ring makes cstl_dlist_foreach spin forever, so do
      * not wait for hcommon.h's 20 s alarm */
     if (!h_nofork) alarm(3);
-    nkeys = 0; nlists = 1; cmpmode = 0; cmp_calls = 0; vsign = 1;
+    nkeys = 0; nlists = 1; cmpmode = 0; cmp_calls = 0; vsign = 1; memset(offs, 0, sizeof(offs));
     memset(pool, 0, sizeof(pool));
     for (i = 0; i < c->nlines; i++) {
         const struct h_line * l = &c->lines[i];
@@ -136,9 +140,10 @@ static void run_case(const struct h_case * c)
         if (h_weq(l, 0, "nlists")) { nlists = a; continue; }
         if (h_weq(l, 0, "cmpmode")) { cmpmode = a; continue; }
         if (h_weq(l, 0, "vsign")) { vsign = a < 0 ? -1 : 1; continue; }
+        if (h_weq(l, 0, "offs")) { for (k = 1; k < l->nw && k <= MAXL; k++) offs[k - 1] = (int)h_int(l, k) ? 1 : 0; continue; }
         if (!started) {
             for (k = 0; k < nlists; k++)
-                cstl_dlist_init(&lists[k], offsetof(struct elem, dn));
+                cstl_dlist_init(&lists[k], offs[k] ? offsetof(struct elem, dn2) : offsetof(struct elem, dn));
             started = 1;
         }
         if (a < 0 || a >= nlists) { printf("precond\n"); return; }
